@@ -329,6 +329,17 @@ def judge_c14(d):
     return None
 
 
+def judge_c08(d):
+    q, impl, model = d["query"], d["impl"], d["model"]
+    if impl in ("hang", "panic"):
+        return "HTTP/1.1 session %s" % impl
+    if model.startswith("request"):
+        if not impl.startswith("request"):
+            return "a valid request head was not recognised under this segmentation (%s)" % impl
+        return "head length / upload payload differ from the client's stream: got %s expected %s" % (impl[:100], model[:100])
+    return None
+
+
 PROPS = {
     "C03": dict(
         suites=["c03"],
@@ -488,5 +499,21 @@ PROPS = {
                  "which the model's exact clock does not include",
                  "connect / TLS-handshake timeouts are tokio::time::timeout wrappers: exercised by the C10 suite (connect) only"],
         assumptions=["a direction whose peer has already finished is closed after T (not 2T) of silence: within the stated bound"],
+    ),
+    "C08": dict(
+        suites=["c08"],
+        judge=judge_c08,
+        level="proof",
+        rule="15 valid request heads (CONNECT authority-form, absolute-URI GET, origin-form POST, 32 headers, exactly 1024 bytes, random) x "
+             "payloads {empty, 1, 40, 300 bytes} under: whole, 1-cuts (every position in thorough), cuts around the end of the head, "
+             "byte-at-a-time, random 2-/3-cuts; near-miss invalid heads (bad version, 33 headers, endless head in 100-byte reads, ...) "
+             "and truncated heads; every session runs the real Http1Codec over an in-memory transport, answers 200 and relays download "
+             "bytes; a watchdog detects sessions that stop making progress (busy loop)",
+        explanation="theorems head_segmentation_invariant, payload_exact, incomplete_head_waits, no_spin, head_bounded, oversize_rejected, "
+                    "response_wellformed about TT/Model/H1.lean under the hypothesis PrefixConsistent(parser)",
+        trusted=["httparse satisfies PrefixConsistent and agrees with 'head ends at the first CRLF CRLF' on the generated valid heads "
+                 "(exercised on every prefix through the 1-cut and byte-wise runs)",
+                 "tokio mpsc/Notify/select! semantics in the listen loop; download relaying ends when the client closes (by design)"],
+        assumptions=["head.length <= 1024 for the invariance theorem: longer heads may be rejected depending on segmentation"],
     ),
 }
